@@ -18,9 +18,11 @@ LEVEL_TEXT = ("RPE.rpe_base and RPE.process_data are verified for pose sequences
 LEVEL_NOTE = ("floats as reals; trusted as C01 plus ndarray.nonzero; process_data verified with the selector abstracted by "
               "the contract of id_pairs_from_delta (C10); rpe() wiring: bounded")
 SIDECARS = ["contracts.lie_algebra", "contracts.lemmas_lie", "contracts.geometry", "contracts.filters", "contracts.metrics",
-            "contracts.lemmas_metrics"]
+            "contracts.lemmas_metrics",
+            "contracts.overwrite", "contracts.ape_rpe_cli"]
 FUNCTIONS = ["evo.core.lie_algebra.relative_se3", "evo.core.metrics.RPE.rpe_base", "evo.core.metrics.RPE.process_data",
-             "evo.core.metrics.id_pairs_from_delta"]
+             "evo.core.metrics.id_pairs_from_delta",
+             "evo.main_rpe.rpe"]
 LEMMAS = ["relative_pose_invariant_under_common_left_motion", "rpe_independent_of_separate_rigid_motions",
           "rpe_zero_for_equal_relative_motions"]
 EXPECTED_OUT_OF_REACH = {}
